@@ -74,6 +74,7 @@ LZ4F_errorCode_t LZ4F_readOpen(LZ4_readFile_t** lz4fRead, FILE* fp)
 {
   char buf[LZ4F_HEADER_SIZE_MAX];
   size_t consumedSize;
+  size_t loadedSize;
   LZ4F_errorCode_t ret;
 
   if (fp == NULL || lz4fRead == NULL) {
@@ -97,6 +98,7 @@ LZ4F_errorCode_t LZ4F_readOpen(LZ4_readFile_t** lz4fRead, FILE* fp)
     LZ4F_freeAndNullReadFile(lz4fRead);
     RETURN_ERROR(io_read);
   }
+  loadedSize = consumedSize;   /* nb of valid bytes in buf (can be < sizeof(buf) for short files) */
 
   { LZ4F_frameInfo_t info;
     LZ4F_errorCode_t const r = LZ4F_getFrameInfo((*lz4fRead)->dctxPtr, &info, buf, &consumedSize);
@@ -131,7 +133,7 @@ LZ4F_errorCode_t LZ4F_readOpen(LZ4_readFile_t** lz4fRead, FILE* fp)
     RETURN_ERROR(allocation_failed);
   }
 
-  (*lz4fRead)->srcBufSize = sizeof(buf) - consumedSize;
+  (*lz4fRead)->srcBufSize = loadedSize - consumedSize;
   memcpy((*lz4fRead)->srcBuf, buf + consumedSize, (*lz4fRead)->srcBufSize);
 
   return ret;
